@@ -1,6 +1,10 @@
 import EaselModel.Core.Proto
 import EaselModel.Random.Model
 import EaselModel.Weights.Model
+import EaselModel.Weights.Adv
+import EaselModel.Weights.Deal64
+import EaselModel.Weights.Tree
+import EaselModel.Weights.Distance
 /-! Line-protocol driver for the C16 model (`Float` instance of `EaselModel.Weights`). Mirrors harness/h_weights.c. -/
 open EaselModel EaselModel.Proto EaselModel.Weights EaselModel.Random
 
@@ -46,6 +50,34 @@ def ruleOf (sf : Float32) (gap tot : Nat) : Bool := Float32.ofNat gap / Float32.
 def sortAsc (xs : List Nat) : List Nat := (xs.toArray.qsort (· < ·)).toList
 
 def weightsLine (s : S) (w : List Float) : String := s!"ok hw={if s.rows.size == 1 then 0 else 1} w={dlist w}"
+
+def S.jc (s : S) : JCMode := if s.mode == 0 then JCMode.text else JCMode.digital s.abc
+
+def pmLine (r : Option (Float × Nat × Nat)) : String :=
+  match r with
+  | some (p, nm, n) => s!"ok {fbits p} {nm} {n}"
+  | none => s!"einval {fbits 0.0} 0 0"
+
+def jcLine (r : JCResult Float) : String :=
+  match r with
+  | .einval => "einval 7ff0000000000000 7ff0000000000000"
+  | .edivzero => "edivzero 7ff0000000000000 7ff0000000000000"
+  | .saturated => "ok 7ff0000000000000 7ff0000000000000"
+  | .ok d v => s!"ok {fbits d} {fbits v}"
+
+/-- `ESL_MSAWEIGHT_CFG` from the op's arguments (defaults = `esl_msaweight_cfg_Create`) -/
+def cfgOf (ws : List String) (alen : Nat) : WCfg :=
+  { minspan := minspanOf (argF32 ws "ft" half32) alen
+    rule := ruleOf (argF32 ws "sf" half32)
+    ignoreRf := (argNat? ws "irf").getD 0 != 0
+    allowSamp := (argNat? ws "as").getD 1 != 0
+    sampthresh := (argInt? ws "st").getD 50000
+    nsamp := (argNat? ws "ns").getD 10000
+    maxfrag := (argInt? ws "mf").getD 5000 }
+
+/-- `esl_rand64_Create(cfg->seed)` + `esl_rand64_Deal` -/
+def dealOf (ws : List String) (m n : Nat) : List Nat :=
+  (deal64 (Rng64.create (UInt64.ofNat ((argNat? ws "seed").getD 42))) m n).1
 
 def step (s : S) (line : String) : S × String :=
   let ws := words line
@@ -135,18 +167,63 @@ def step (s : S) (line : String) : S × String :=
     | none => (s, "bad-op")
   | "pbadv" :: _ =>
     if !ready || s.mode == 0 then (s, "bad-op") else
-    let irf := (argNat? ws "irf").getD 0
-    let ft := argF32 ws "ft" half32
-    let sf := argF32 ws "sf" half32
-    let ms := minspanOf ft s.alen
-    let rf := if irf != 0 then none else s.rf
+    let cfg := cfgOf ws s.alen
+    if cfg.nsamp < 1 then (s, "bad-op") else
     if rows.length == 1 then
-      (s, s!"ok hw=0 rf=0 all=0 allcols=0 samp=0 nfrag=0 ncons=0 cons=- w={dlist [1.0]}")
+      (s, s!"ok hw=0 rf=0 all=0 allcols=0 samp=0 nfrag=0 rej=0 snfrag=0 ncons=0 cons=- w={dlist [1.0]}")
     else
-    let ci := pbConsensus s.abc (ruleOf sf) rf (rows.map (rowInfo s.abc ms)) s.alen
-    let w := pbDigitalWith (α := Float) s.abc ms ci.cols rows
+    let ci := pbConsensusAdv s.abc cfg (dealOf ws) s.rf rows
+    let w := pbDigitalWith (α := Float) s.abc cfg.minspan ci.cols rows
     let b := fun (x : Bool) => if x then 1 else 0
-    (s, s!"ok hw=1 rf={b ci.byRf} all={b ci.byAll} allcols={b ci.allCols} samp=0 nfrag={nFragments s.abc ms rows} ncons={ci.cols.length} cons={nlist (ci.cols.map (· + 1))} w={dlist w}")
+    (s, s!"ok hw=1 rf={b ci.byRf} all={b ci.byAll} allcols={b ci.allCols} samp={b ci.bySample} nfrag={nFragments s.abc cfg.minspan rows} rej={b ci.rejected} snfrag={ci.sampNfrag} ncons={ci.cols.length} cons={nlist (ci.cols.map (· + 1))} w={dlist w}")
+  | "pairmatch" :: _ =>
+    match argNat? ws "i", argNat? ws "j" with
+    | some i, some j =>
+      if !ready || i ≥ s.rows.size || j ≥ s.rows.size then (s, "bad-op") else
+      (s, pmLine (pairMatch (α := Float) s.m (rows.getD i []) (rows.getD j [])))
+    | _, _ => (s, "bad-op")
+  | "jc" :: _ =>
+    match argNat? ws "i", argNat? ws "j" with
+    | some i, some j =>
+      let K := if s.mode == 0 then (argNat? ws "k").getD 4 else s.abc.K
+      if !ready || i ≥ s.rows.size || j ≥ s.rows.size || K < 2 then (s, "bad-op") else
+      (s, jcLine (jukesCantor s.jc K (rows.getD i []) (rows.getD j [])))
+    | _, _ => (s, "bad-op")
+  | "distpair" :: _ =>
+    match argHex? ws "a", argHex? ws "b" with
+    | some a, some b =>
+      let bad := fun (r : Row) => (s.mode == 0 && r.any (· == 0)) || (s.mode != 0 && r.any (fun c => c.toNat ≥ s.abc.Kp))
+      let K := if s.mode == 0 then (argNat? ws "k").getD 4 else s.abc.K
+      if bad a || bad b || K < 2 then (s, "bad-op") else
+      (s, pmLine (pairMatch (α := Float) s.m a b) ++ " / " ++ jcLine (jukesCantor s.jc K a b))
+    | _, _ => (s, "bad-op")
+  | "avgid" :: _ | "avgmatch" :: _ =>
+    match argNat? ws "max" with
+    | some maxc =>
+      if !ready || maxc < 1 then (s, "bad-op") else
+      let n := rows.length
+      let sampled := if n ≤ 1 || exhaustive n maxc then [] else samplePairs n maxc (Rng.create .mersenne 42) []
+      if ws.head? == some "avgid" then (s, s!"ok {fbits (averageId (α := Float) s.m rows maxc sampled)}")
+      else (s, s!"ok {fbits (averageMatch (α := Float) s.m rows maxc sampled)}")
+    | none => (s, "bad-op")
+  | "upgma" :: _ =>
+    match argNat? ws "n", arg? ws "d" with
+    | some n, some dl =>
+      let ds := ((dl.splitOn ",").map fun t => match parseHexNat t with
+        | some v => Float.ofBits (UInt64.ofNat v) | none => 0.0).toArray
+      if n < 2 || ds.size != n * (n - 1) / 2 then (s, "bad-op") else
+      -- upper triangle, row-major: entry (x, y), x < y, sits at x*n - x*(x+1)/2 + (y - x - 1)
+      let d := fun (x y : Nat) => ds.getD (x * n - x * (x + 1) / 2 + (y - x - 1)) 0.0
+      let st := upgma (α := Float) n d
+      let t := toCTree n st
+      let il := fun (xs : List Int) => ",".intercalate (xs.map toString)
+      let valid := wellFormedB n st.nodes.reverse && st.nodes.all fun nd => !(nd.l < 0.0) && !(nd.r < 0.0)
+      (s, s!"ok valid={if valid then 1 else 0} left={il t.left} right={il t.right} parent={il t.parent} ld={dlist t.ld} rd={dlist t.rd} tp={il t.taxaparent} cs={nlist t.cladesize}")
+    | _, _ => (s, "bad-op")
+  | "deal64" :: _ =>
+    match argNat? ws "m", argNat? ws "n" with
+    | some m, some n => if m < 1 || m > n then (s, "bad-op") else (s, "ok " ++ nlist (dealOf ws m n))
+    | _, _ => (s, "bad-op")
   | "blosum" :: _ =>
     if !ready then (s, "bad-op") else (s, weightsLine s (blosum s.m (argBits ws "maxid") rows))
   | "gsc" :: _ =>
@@ -164,25 +241,19 @@ def step (s : S) (line : String) : S × String :=
   | "idfilteradv" :: _ =>
     if !ready || s.mode == 0 then (s, "bad-op") else
     let maxid := argBits ws "maxid"
-    let irf := (argNat? ws "irf").getD 0
-    let ft := argF32 ws "ft" half32
-    let sf := argF32 ws "sf" half32
+    let cfg := cfgOf ws s.alen
     let pref := (argNat? ws "pref").getD 1
     let seed := (argNat? ws "seed").getD 42
     let n := rows.length
-    let sortwgt : List Float :=
-      if pref == 1 then
-        let ms := minspanOf ft s.alen
-        let rf := if irf != 0 then none else s.rf
-        let cols := filterConsensus s.abc (ruleOf sf) ms rf rows s.alen
-        rows.map fun r => Float.ofNat (conscover s.abc cols r)
+    if pref < 1 || pref > 3 || cfg.nsamp < 1 then (s, "bad-op") else
+    let fp : FilterPref :=
+      if pref == 1 then .conscover
       else if pref == 2 then
-        ((List.range n).foldl (fun (acc : List Float × Rng64) _ =>
+        .random ((List.range n).foldl (fun (acc : List Nat × Rng64) _ =>
             let (x, r) := acc.2.next
-            (acc.1 ++ [Float.ofNat (dblNum x) * (1.0 / 9007199254740992.0)], r)) ([], Rng64.create (UInt64.ofNat seed))).1
-      else (List.range n).map fun i => Float.ofNat (n - i)
-    if pref < 1 || pref > 3 then (s, "bad-op") else
-    (s, s!"ok same=1 kept={nlist (sortAsc (idFilterDigital s.abc maxid sortwgt rows))}")
+            (acc.1 ++ [dblNum x], r)) ([], Rng64.create (UInt64.ofNat seed))).1
+      else .origorder
+    (s, s!"ok same=1 kept={nlist (sortAsc (idFilterAdv (α := Float) s.abc cfg (dealOf ws) fp maxid s.rf rows))}")
   | _ => (s, "bad-op")
 
 def main : IO Unit := runDriver ({} : S) step
